@@ -56,10 +56,22 @@ fn weight(e: RegLan) -> u64 {
         BaseRegLan::Loop(a, r) => {
             let (lo, hi) = r.verif_bounds();
             let n = hi.unwrap_or(lo).max(1) as u64;
-            1 + weight(a).saturating_mul(n.min(1000))
+            // a loop over something that contains a loop or a complement: the residual states are sets of pairs of
+            // sets - far more than the node count suggests
+            let nested = if has_loop_or_not(a) { 25 } else { 0 };
+            1 + weight(a).saturating_mul(n.min(1000)) + nested
         }
         BaseRegLan::Complement(a) => 1 + weight(a),
         BaseRegLan::Union(v) | BaseRegLan::Inter(v) => 1 + v.iter().map(|x| weight(x)).sum::<u64>(),
+    }
+}
+
+fn has_loop_or_not(e: RegLan) -> bool {
+    match e.verif_expr() {
+        BaseRegLan::Empty | BaseRegLan::Epsilon | BaseRegLan::Range(_) => false,
+        BaseRegLan::Loop(..) | BaseRegLan::Complement(_) => true,
+        BaseRegLan::Concat(a, b) => has_loop_or_not(a) || has_loop_or_not(b),
+        BaseRegLan::Union(v) | BaseRegLan::Inter(v) => v.iter().any(|x| has_loop_or_not(x)),
     }
 }
 
